@@ -2,6 +2,9 @@
 known_findings.json names one of these functions in its "predicate" field."""
 
 
+import os
+
+
 def never(*a, **k):
     return False
 
@@ -47,3 +50,90 @@ def probe_k8_pickle_identity():
         return 0
     g = klepto.inf_cache(keymap=km.picklemap(serializer='pickle'))(f)
     return g.key(True) != g.key(True, w=tuple([1]))
+
+
+def _dir_name(key):
+    return str(key).replace('-', '_')
+
+
+def k1_dir_alias(label, ops, problem):
+    """K1 (C03): dir_archive names the entry directory of a key str(key).replace('-', '_'), so two
+    distinct keys with the same name (0 and '0', 'a-b' and 'a_b', (1, 2) and '(1, 2)') share one entry.
+    Matches only when the shrunk history really uses two such keys."""
+    if not label.startswith('dir'):
+        return False
+    keys = []
+    for op in ops:
+        for x in op[1:2]:
+            if isinstance(x, (list,)):
+                for y in x:
+                    keys.append(y[0] if isinstance(y, (tuple, list)) and op[0] == 'update' else y)
+            else:
+                keys.append(x)
+    seen = {}
+    for k in keys:
+        try:
+            n = _dir_name(k)
+        except Exception:
+            continue
+        for other in seen.get(n, []):
+            if type(other) is not type(k) or other != k:
+                return True
+        seen.setdefault(n, []).append(k)
+    return False
+
+
+def probe_k1_dir_alias():
+    import shutil
+    import tempfile
+    import klepto.archives as ar
+    d = tempfile.mkdtemp(prefix='k1probe')
+    try:
+        a = ar.dir_archive(os.path.join(d, 'a.d'), cached=False)
+        a[0] = 'int'
+        a['0'] = 'str'
+        return a[0] == 'str' or len(a) != 2
+    finally:
+        shutil.rmtree(d, ignore_errors=True)
+
+
+def _op_keys(ops):
+    keys = []
+    for op in ops:
+        for x in op[1:2]:
+            if isinstance(x, list):
+                for y in x:
+                    keys.append(y[0] if isinstance(y, (tuple, list)) and op[0] == 'update' else y)
+            else:
+                keys.append(x)
+    return keys
+
+
+def k9_dir_source_name(label, ops, problem):
+    """K9 (C03): dir_archive(serialized=False) reads entries with "from K_<name> import memo": a key whose
+    directory name is not a valid module name is stored without error but can never be read back."""
+    if not label.startswith('dir-source'):
+        return False
+    for k in _op_keys(ops):
+        try:
+            if not ('K_' + _dir_name(k)).isidentifier():
+                return True
+        except Exception:
+            pass
+    return False
+
+
+def probe_k9_dir_source_name():
+    import shutil
+    import tempfile
+    import klepto.archives as ar
+    d = tempfile.mkdtemp(prefix='k9probe')
+    try:
+        a = ar.dir_archive(os.path.join(d, 'a.d'), cached=False, serialized=False)
+        a[(1, 2)] = 5
+        try:
+            return dict(a.items()) != {(1, 2): 5}
+        except KeyError:
+            return True
+    finally:
+        shutil.rmtree(d, ignore_errors=True)
